@@ -178,7 +178,7 @@ def oreq (impl : String) : P Verdict := do
       | .unspecified => (none, [], "unspec")
       | .nothing kf => (some "none", kf, "nothing")
       | .message hs kf ft => (some (showObsReqCore (obsRequestOf lang hs)), kf, ft)
-  let out := if model.startsWith "ok" then "ok" else model
+  let out := if model.startsWith "ok" then "ok" else if h2CanParse data then model else "none-cannotparse"
   pure (verdict2 impl model spec kf s!"oreq:{blockTag frames}:{ctrlTag frames}:{ft}:{out}")
 
 /-- `C16.oresp <bytes>` — `HttpProcessors::new().parse_response` (inputs with `H1Rejects`) -/
@@ -189,11 +189,14 @@ def oresp (impl : String) : P Verdict := do
   let frames := parseFrames data
   let (spec, kf, ft) : Option String × List String × String :=
     if hasPreface data then (none, [], "preface")
+    -- a server's first frame is SETTINGS (RFC 7540 §3.5); a stream that opens with a frame type RFC 7540
+    -- does not define is not a connection start the statement speaks about
+    else if (frames.head?.map (fun f => decide (f.ty.toNat > 9))).getD false then (none, [], "unspec")
     else match specFields false frames with
       | .unspecified => (none, [], "unspec")
       | .nothing kf => (some "none", kf, "nothing")
       | .message hs kf ft => (some (showObsRespCore (obsResponseOf hs)), kf, ft)
-  let out := if model.startsWith "ok" then "ok" else model
+  let out := if model.startsWith "ok" then "ok" else if h2CanParse data then model else "none-cannotparse"
   pure (verdict2 impl model spec kf s!"oresp:{blockTag frames}:{ctrlTag frames}:{ft}:{out}")
 
 /-- `C16.seq <A> <B>` — one `HttpProcessors`: `parse_request(A)` then `parse_request(B)`; the output
